@@ -56,20 +56,13 @@ func jmpToOriginFunctionValue(from, to uintptr) (value []byte) {
 }
 
 // relative 判断两个指针间隔是否可以用相对地址表示
+// jmp rel32 的偏移量是相对于下一条指令(from+5)计算的, 因此需要判断 to-(from+5) 是否在 int32 范围内
 func relative(from uintptr, to uintptr) bool {
-	delta := int64(from - to)
 	if unsafe.Sizeof(uintptr(0)) == unsafe.Sizeof(int32(0)) {
-		delta = int64(int32(from - to))
+		return true
 	}
-
-	// 跨度大于2G 时
-	relative := delta <= 0x7fffffff
-
-	if delta < 0 {
-		delta = -delta
-		relative = delta <= 0x80000000
-	}
-	return relative
+	delta := int64(to-from) - 5
+	return delta >= -0x80000000 && delta <= 0x7fffffff
 }
 
 // checkAlreadyPatch 检测是否已经 patch
